@@ -476,7 +476,7 @@ def gen_shutdown(rng, kind, n):
         mx = rng.randint(1, 3)
         pool = {"max": mx, "min_idle": rng.choice([0, 0, 1, 2]), "idle_ms": rng.choice([60000, 60000, 50])}
         sc = base(rng, kind, pool)
-        variant = k % 5 if k % 10 == 4 else k % 4
+        variant = k % 5 if k % 10 == 4 else (5 if k % 10 == 9 else k % 4)
         ns = rng.randint(1, 3)
         for s in range(ns):
             ops = [send_op("s%d-%d" % (s, j), rng) for j in range(rng.randint(1, 4))]
@@ -491,6 +491,19 @@ def gen_shutdown(rng, kind, n):
         elif variant == 2:
             # quiescent shutdown with idle connections, then use after shutdown
             sc["after"] = [{"op": "debug"}, {"op": "shutdown"}, {"op": "debug"}, send_op("late", rng), {"op": "test"}]
+        elif variant == 5:
+            # quiescent shutdown with several idle connections, one of which fails its QUIT (or was closed by the
+            # server while idle): every other idle connection must still be sent QUIT
+            pool["max"] = 3; pool["min_idle"] = 0; pool["idle_ms"] = 60000
+            sc["reply_delay_us"] = 1500
+            sc["senders"] = [[dict(send_op("q%d" % s, rng), size=70000)] for s in range(3)]
+            if rng.random() < 0.6:
+                sc["faults"] = [{"conn": None, "cmd": "QUIT", "nth": 0, "act": rng.choice(["e5", "e4", "close"])}]
+                pause = rng.choice([0, 5])
+            else:
+                sc["idle_close_ms"] = {str(rng.choice([0, 0, 1])): 15}
+                pause = 60
+            sc["after"] = [{"op": "debug"}, {"op": "sleep", "ms": pause}, {"op": "shutdown"}, {"op": "debug"}, send_op("late", rng)]
         elif variant == 4:
             # the maintenance worker is busy (its connect waits 1.4 s for the greeting) while shutdown is called twice
             pool["min_idle"] = rng.choice([1, 2]); pool["idle_ms"] = 60000
